@@ -170,7 +170,7 @@ theorem Wrote.setLater {d d' d'' : Ini} {L N} {s k v : Str} {o : IniSec} (w : Wr
 
 def baseOpts (pu : Option Str) (id uid name type : Str) (paths : List (Str × Str)) : IniSec :=
   setsKV (setsKV [] [(kId, id), (kUid, uid), (kName, name), (kType, type)])
-    (pathOpts paths ++ match pu with | some p => [(kParent, p)] | none => [])
+    (pathOpts paths ++ parentOpt pu)
 
 /-- the final options of a variant's own section -/
 def varOpts (pu : Option Str) : Variant → IniSec
